@@ -1,5 +1,5 @@
 (* C11 — proofs about Model/SbomRelease.v (readReleaseData). *)
-From Apko Require Import Base.Prelude Model.Sbom Model.SbomRelease Spec.SbomReleaseSpec.
+From Apko Require Import Base.Prelude Base.C11Lib Generated.C11Prov Model.Sbom Model.SbomRelease Spec.SbomReleaseSpec.
 Open Scope string_scope. Open Scope list_scope.
 
 Lemma assign_of_iff k l v : assign_of k l = Some v <-> Assigns k v l.
@@ -148,3 +148,10 @@ Qed.
 
 Lemma release_version_of_ok f r : read_release f = Ok r -> release_version_of f = rd_version r.
 Proof. unfold release_version_of. intros ->. reflexivity. Qed.
+
+(* what goextract read in the parser on this run *)
+Lemma release_literals_read :
+  os_release_path = "/etc/os-release" /\
+  os_release_key_id = "ID" /\ os_release_key_name = "NAME" /\ os_release_key_version = "VERSION_ID" /\
+  os_release_default_id = "unknown" /\ os_release_default_name = "apko-generated image" /\ os_release_default_version = "unknown".
+Proof. repeat split; reflexivity. Qed.
